@@ -30,7 +30,7 @@ Rename(s, i) == IF s = <<>> THEN <<>>
                 ELSE IF Head(s) = "a" THEN <<AtomName(i)>> \o Rename(Tail(s), i + 1)
                 ELSE <<Head(s)>> \o Rename(Tail(s), i)
 ExtraShapes == { <<"(", "a", ")">>, <<"a", "/", "(", "a", ")">>, <<"(", "(", "a", "*", "a", ")", ")">>, <<"(", "a", ")", "*", "a">> }
-GrammarShapes == {Rename(s, 1) : s \in (UNION {ExprsN(n) : n \in 1..MaxAtoms}) \cup ExtraShapes}
+GrammarShapes == TLCEval({Rename(s, 1) : s \in (UNION {ExprsN(n) : n \in 1..MaxAtoms}) \cup ExtraShapes})
 
 FileCases == IF Source = "file" THEN JsonDeserialize(IOEnv.UEXPR_IN) ELSE <<>>
 NFile == Len(FileCases)
@@ -42,8 +42,8 @@ FileVals(c) == [i \in 1..Len(c.atoms) |-> FileVal(c.atoms[i])]
 
 VARIABLES shape, vals, idx
 \* constant-level caches (TLC evaluates them once): per grammar shape and per pool atom
-ShapeCache == [s \in GrammarShapes |-> [c |-> ShapeClass(s), it |-> I!Ideal(s), mt |-> MTree(s)]]
-PoolCache  == [k \in 1..Len(Pool) |-> [i |-> IdealAtom(AtomText(Pool[k])), m |-> MachAtom(AtomText(Pool[k]))]]
+ShapeCache == TLCEval([s \in GrammarShapes |-> [c |-> ShapeClass(s), it |-> I!Ideal(s), mt |-> MTree(s)]])
+PoolCache  == TLCEval([k \in 1..Len(Pool) |-> [i |-> IdealAtom(AtomText(Pool[k])), m |-> MachAtom(AtomText(Pool[k]))]])
 PoolIdx(v) == CHOOSE k \in 1..Len(Pool) : Pool[k] = v
 CurIdeal == IF Source = "grammar"
             THEN IdealW(ShapeCache[shape].c, ShapeCache[shape].it, [i \in 1..Len(vals) |-> PoolCache[PoolIdx(vals[i])].i])
